@@ -168,6 +168,41 @@ def attr_session_roundtrip(cases):
     return out
 
 
+def listdir_roundtrip(cases, batch=40):
+    """server list_folder() -> NAME replies to READDIR -> client listdir_attr(): each case (an object with
+    .build(SFTPAttributes)) becomes one directory entry `e<i>`.  Returns {i: decoded SFTPAttributes} per case index
+    (a missing index = the entry never arrived) or raises SessionError."""
+    from paramiko import SFTPAttributes, SFTPServerInterface, SFTP_NO_SUCH_FILE
+
+    class SI(SFTPServerInterface):
+        def list_folder(self, path):
+            try:
+                k = int(path.rsplit("/", 1)[1])
+            except (ValueError, IndexError):
+                return SFTP_NO_SUCH_FILE
+            out = []
+            for i in range(k * batch, min(len(cases), (k + 1) * batch)):
+                a = cases[i].build(SFTPAttributes)
+                a.filename = "e%d" % i
+                out.append(a)
+            return out
+
+    got = {}
+    with Session(si_class=SI) as s:
+        for k in range((len(cases) + batch - 1) // batch):
+            try:
+                entries = s.client.listdir_attr("/dir/%d" % k)
+            except socket.timeout:
+                raise SessionError("listdir_attr timed out")
+            except Exception as e:
+                raise SessionError("listdir_attr raised %r" % (e,))
+            for a in entries:
+                name = getattr(a, "filename", "")
+                if name.startswith("e") and name[1:].isdigit():
+                    got[int(name[1:])] = a
+    return got
+
+
 # ------------------------------------------------------------------------------------------------ watchdog
 def call_with_watchdog(session, fn, func_name, var_names, spin_counter, first_wait=8.0, poll=1.0, cap=240.0):
     """Run `fn()` (a client call on `session`) in a worker thread.  Returns ("ok", value), ("exc", exception) or
